@@ -36,14 +36,11 @@ structure FrontOK (v : DView) : Prop where
   noback : backPart v.trace = []
   sfresh : SFresh v.f
 
-def isSpass : Ev → Bool
-  | .spass _ _ => true
-  | _ => false
-
 /-- the response side of a trace is empty, or starts with THE one full run of the sender filters and contains no other
-sender pass: the sender filters run at most once per stream and before anything is sent downstream -/
+sender pass, only the downstream sender calls of one response: the sender filters run at most once per stream and before
+anything is sent downstream -/
 def SpOK (c : Cfg) (t : List Ev) : Prop :=
-  backPart t = [] ∨ ∃ rest, backPart t = .spass 0 (sendRun c.send 0) :: rest ∧ ∀ e ∈ rest, isSpass e = false
+  backPart t = [] ∨ ∃ rest, backPart t = .spass 0 (sendRun c.send 0) :: rest ∧ replyShape rest = true
 
 /-- what holds of the data when the worker is about to run the `case` of phase `p` -/
 def PhaseData (c : Cfg) (v : DView) (p : Nat) : Prop :=
@@ -584,17 +581,13 @@ theorem Ans_congr {v w : DView} (h : Ans v) (e1 : w.f.resp = v.f.resp) (e2 : w.f
   have : answeredIn v.trace := by unfold answeredIn at *; rw [← e3]; exact ha
   rw [e1, e2, e3]; exact h this
 
-theorem replyEvs_nospass (r : Resp) (code : Option Nat) : ∀ e ∈ replyEvs r code, isSpass e = false := by
-  intro e he
-  simp only [replyEvs, List.mem_cons, List.mem_append] at he
-  rcases he with rfl | he | he
-  · rfl
-  · split at he <;> simp at he; subst he; rfl
-  · split at he <;> simp at he; subst he; rfl
+theorem replyEvs_shape (r : Resp) (code : Option Nat) : replyShape (replyEvs r code) = true := by
+  obtain ⟨d, t⟩ := r
+  cases d <;> cases t <;> rfl
 
 theorem SpOK_done (c : Cfg) (t : List Ev) (r : Resp) (code : Option Nat)
     (h : backPart t = .spass 0 (sendRun c.send 0) :: replyEvs r code) : SpOK c t :=
-  Or.inr ⟨_, h, replyEvs_nospass r code⟩
+  Or.inr ⟨_, h, replyEvs_shape r code⟩
 
 theorem phaseCase_Ginv_back (c : Cfg) (s : St) (hnh : s.halted = false) (hd : PhaseData c s.view s.phase)
     (hin : s.inner ≤ s.phase + 1) (hans : Ans s.view) (hge : 12 ≤ s.phase) : Ginv c (phaseCase c s) := by
@@ -636,7 +629,7 @@ theorem phaseCase_Ginv_back (c : Cfg) (s : St) (hnh : s.halted = false) (hd : Ph
       rw [gT, backPart_snoc, hback]; rfl
     have gAns : Ans g.view := Ans_congr hans gResp gSv (by show recvVerdicts g.trace = _; rw [gT]; exact recvVerdicts_snoc_other _ _ rfl)
     by_cases hc : g.cleaned = true
-    · refine G_cleaned c g gH hc gAns (Or.inr ⟨[], gB, by simp⟩) ⟨hc, Or.inl (Or.inr ?_)⟩
+    · refine G_cleaned c g gH hc gAns (Or.inr ⟨[], gB, rfl⟩) ⟨hc, Or.inl (Or.inr ?_)⟩
       have hc' : (runSend c.send s.toFState).1.cleaned = true := by rw [← gF]; exact hc
       rcases f6 hc' with h' | ⟨iv, hiv, ht⟩
       · rw [show s.toFState.cleaned = false from hs_clean] at h'; cases h'
@@ -644,7 +637,7 @@ theorem phaseCase_Ginv_back (c : Cfg) (s : St) (hnh : s.halted = false) (hd : Ph
         · show theRun c ∈ g.trace; rw [gT]; simp
         · rw [← hrun]; exact hiv
     · have hc : g.cleaned = false := by simpa using hc
-      refine G_plain c g gH hc gR gDir gD gAns (Or.inr ⟨[], gB, by simp⟩) (by rw [gI, gP]; exact hin) (fun _ => ?_) (fun ha => absurd gA ha)
+      refine G_plain c g gH hc gR gDir gD gAns (Or.inr ⟨[], gB, rfl⟩) (by rw [gI, gP]; exact hin) (fun _ => ?_) (fun ha => absurd gA ha)
       rw [gP, h]
       exact PhaseData_13 c _ ⟨gA, hc, gDir, gD⟩ (by show g.toFState.resp.isSome = true; rw [gResp]; exact hresp) gR gB ho
   · -- UpRecvHeader
@@ -675,7 +668,7 @@ theorem phaseCase_Ginv_back (c : Cfg) (s : St) (hnh : s.halted = false) (hd : Ph
         have hbp : backPart (s.trace ++ [Ev.dh s.statusVar false]) = [theRun c, .dh s.statusVar false] := by
           rw [backPart_snoc, hback]; rfl
         refine G_plain c _ hnh hs_clean hrst hs_dir rfl (Ans_congr hans rfl rfl (recvVerdicts_snoc_other _ _ rfl))
-          (Or.inr ⟨_, hbp, by simp [isSpass]⟩) hin (fun _ => ?_) (fun ha => absurd hs_again ha)
+          (Or.inr ⟨_, hbp, rfl⟩) hin (fun _ => ?_) (fun ha => absurd hs_again ha)
         show PhaseData c _ (s.phase + 1)
         rw [h]
         exact PhaseData_14 c _ ⟨hs_again, hs_clean, hs_dir, rfl⟩ r hr hdt hrst hbp ho
@@ -705,7 +698,7 @@ theorem phaseCase_Ginv_back (c : Cfg) (s : St) (hnh : s.halted = false) (hd : Ph
             [theRun c, .dh s.statusVar false] ++ (if r.data then [.dd false] else []) := by
           rw [backPart_snoc, hback, hdata]; rfl
         refine G_plain c _ hnh hs_clean hrst hs_dir rfl (Ans_congr hans rfl rfl (recvVerdicts_snoc_other _ _ rfl))
-          (Or.inr ⟨_, hbp, by rw [hdata]; simp [isSpass]⟩) hin (fun _ => ?_) (fun ha => absurd hs_again ha)
+          (Or.inr ⟨_, hbp, by rw [hdata]; rfl⟩) hin (fun _ => ?_) (fun ha => absurd hs_again ha)
         show PhaseData c _ (s.phase + 1)
         rw [h]
         exact PhaseData_15 c _ ⟨hs_again, hs_clean, hs_dir, rfl⟩ r hr htr hrst hbp ho
@@ -757,13 +750,13 @@ theorem PhaseData_SpOK (c : Cfg) (v : DView) (p : Nat) (h : PhaseData c v p) : S
   · subst hp; exact (PhaseData_10_of c v h).elim
   · subst hp; exact Or.inl (PhaseData_11_of c v h).1.noback
   · subst hp; exact Or.inl (PhaseData_12_of c v h).2.2.1
-  · subst hp; exact Or.inr ⟨[], (PhaseData_13_of c v h).2.2.1, by simp⟩
+  · subst hp; exact Or.inr ⟨[], (PhaseData_13_of c v h).2.2.1, rfl⟩
   · subst hp
     obtain ⟨r, _, _, _, hb, _⟩ := PhaseData_14_of c v h
-    exact Or.inr ⟨_, hb, by simp [isSpass]⟩
+    exact Or.inr ⟨_, hb, rfl⟩
   · subst hp
     obtain ⟨r, _, _, _, hb, _⟩ := PhaseData_15_of c v h
-    exact Or.inr ⟨_, hb, by cases r.data <;> simp [isSpass]⟩
+    exact Or.inr ⟨_, hb, by cases r.data <;> rfl⟩
   · exact (PhaseData_ge16_of c v p (by omega) h).elim
   · exact (PhaseData_ge16_of c v p (by omega) h).elim
 
